@@ -227,8 +227,10 @@ func runC09(c *Ctx) {
 	} else {
 		c.Deadline = c.Start.Add(60 * time.Minute)
 	}
-	hists := [][]string{{}, {"x"}, {"x", "x"}, {"ab", "a", "abc"}, {"a b", "l1\nl2", "a"}, {"p", "pq", "pqr", "q"}}
-	ws := []string{"", "a", "p", "zz"}
+	// the last two histories: an entry that a search text with a regexp metacharacter must NOT match
+	// ("a." is a literal substring of "a.c" only), and a multi-line entry that is the newest match of q
+	hists := [][]string{{}, {"x"}, {"x", "x"}, {"ab", "a", "abc"}, {"a b", "l1\nl2", "a"}, {"p", "pq", "pqr", "q"}, {"a.c", "cat abc"}, {"x", "q1\nq2"}}
+	ws := []string{"", "a", "p", "zz", "a."}
 	kinds := []string{"default", "mem", "file"}
 	c.Rule = "explicit-state BFS per (history H, source kind, in-progress text W, cursor at end / after the first character) over navigation and search commands by name (previous/next/beginning/end-of-history, up/down-line-or-history, *-buffer-or-history, history-search-*, history-substring-search-*, up-line-or-search, incremental search sessions with pattern runes a p q + Backspace + Enter/ESC/C-g, vi k j n N, fetch-history); exact list/index reference model on navigation-only paths, membership in the documented match set for searches, no 'history error' hint, sources unchanged. non-trivial = distinct states reached"
 	c.Bounds = map[string]any{"histories": hists, "in_progress": ws, "source_kinds": kinds}
@@ -272,7 +274,13 @@ func runC09(c *Ctx) {
 						if cur == "first" && len(W) < 2 {
 							continue
 						}
+						if (hi == 6 && wi != 0 && wi != 4) || (hi == 7 && wi != 0) || (wi == 4 && hi != 6) {
+							continue // the two special histories are paired with their own in-progress texts only
+						}
 						depth := 2
+						if hi == 7 {
+							depth = 3 // C-r, q, Enter
+						}
 						if !quick {
 							depth = 4
 						} else if kind == "default" && (hi == 3 || hi == 5) && (wi == 1 || wi == 2) {
